@@ -96,7 +96,7 @@ def corpus(ctx, texts):
     import random
     sub = dict(ctx, rng=random.Random(ctx.get('seed', 0) + 7919))
     quick = ctx.get('tier') != 'thorough'
-    out = list(texts[: (300 if quick else len(texts))])
+    out = list(texts[: (200 if quick else len(texts))])
     out += [t for _, t in c03.grammars(dict(sub, tier='quick'))][:: (20 if quick else 1)]
     out += [t for k, t in c06.cases(dict(sub, tier='quick')) if not k.startswith('probe')]
     return list(dict.fromkeys(out))
@@ -119,7 +119,7 @@ def tie(ctx, res, texts, label='end_to_end_bash', binary_max=None):
     compared with what the real `complgen --bash` binary writes (one process per grammar: slow), the others with
     the script the same library code returns inside cg-dump."""
     if binary_max is None:
-        binary_max = 60 if ctx.get('tier') != 'thorough' else 3000
+        binary_max = 40 if ctx.get('tier') != 'thorough' else 3000
     t0 = time.time()
     texts = [t for t in texts if usable(t)]
     with build.Lock():
